@@ -5,7 +5,8 @@ From Coq.Strings Require Import Byte.
 From Verif.Base Require Import Bytes Outcome Str.
 From Verif.Gen Require Import Consts ProtoTab.
 From Verif.Model Require Import IE Proto Kafka.
-From Verif.Proofs Require Import Bytes_lemmas Proto_lemmas Kafka_lemmas.
+From Verif.Proofs Require Import Bytes_lemmas Proto_lemmas Kafka_lemmas C19_lemmas.
+From Verif.Driver Require Import Show C19drv.
 Import ListNotations.
 Local Open Scope N_scope.
 Local Notation length := List.length.
@@ -86,6 +87,19 @@ Theorem C19_convert : forall c m r, well_typed_record c r = true ->
   exists st, convert c m r = Ok st /\ forall kd k, getf kd k st = expected_field c m r kd k.
 Proof. exact convert_spec. Qed.
 Print Assumptions C19_convert.
+
+(* (6) the oracle the check applies to the implementation's observations (sobs_ok: no panic, one
+   Kafka message per record in order, topic, 4-byte length prefix = real size, the model's decoder
+   on the payload and the consumer-side dump give the record's values and the header) holds on
+   the model's own observation of EVERY case within the hypotheses. For the cases the driver
+   parses, cs_conv is conv1 or conv2, for which the first two premises are C19_tables_wf and
+   C19_spec_is_code. (The rendering/parsing of the observation line is outside this statement.) *)
+Theorem C19_trace : forall cs,
+  wf_convertor (cs_conv cs) = true -> cs_spec cs = cs_conv cs ->
+  wf_case cs = true -> small_case cs = true ->
+  sobs_ok cs (model_sobs cs) = true.
+Proof. exact C19_trace_lemma. Qed.
+Print Assumptions C19_trace.
 
 (* the UTF-8 hypothesis is necessary: the faithful model drops the record (finding F10) *)
 Local Open Scope string_scope.
